@@ -40,6 +40,9 @@ def _programs(tier):
     # a later step re-assigns a key; and two waits in a row
     progs['reassign'] = {'steps': [{'reg': [['k', 0, 'fut', 'ret'], ['j', 1, 'fut', 'call']], 'ret': None},
                                    {'reg': [['k', 2, 'fut', 'call']], 'ret': None}, {'reg': [], 'ret': None}]}
+    # ... and a key that got one item's result is assigned an *earlier* item again by a later step (the item is done by then)
+    progs['reassign_same'] = {'steps': [{'reg': [['k', 0, 'fut', 'ret'], ['j', 1, 'fut', 'call']], 'ret': None},
+                                        {'reg': [['j', 0, 'fut', 'call']], 'ret': None}, {'reg': [['k', 1, 'fut', 'ret']], 'ret': None}, {'reg': [], 'ret': None}]}
     progs['reassign_child'] = {'steps': [{'reg': [['k', 0, 'child', 'ret']], 'ret': None},
                                          {'reg': [['k', 1, 'fut', 'ret'], ['m', 2, 'child', 'call']], 'ret': None}, {'reg': [], 'ret': 3}]}
     # a child launched by an earlier step and handed to the context only later (it may already have finished / failed / been killed)
